@@ -512,3 +512,88 @@ def touches_field(ev, field, G=None, alias_cache={}):
 
 def build_f_plain(prog, f):
     return Graph(prog, f)
+
+
+def param(f, i):
+    """name of the i-th parameter of f (rules speak about 'the first parameter', not about its spelling)."""
+    ps = f.j['params']
+    if i >= len(ps):
+        raise AnalysisBroken('%s has no parameter #%d' % (f.nname, i))
+    return f.decls[ps[i]]['name']
+
+
+def locals_defined_only_by(f, rx):
+    """names of locals of f ALL of whose definitions (initialiser and plain assignments) are spelled matching rx."""
+    defs = {}
+    for e in f.exprs:
+        if e['k'] == 'declstmt':
+            for v in e['vars']:
+                if v.get('init') is not None and v['init'] >= 0 and f.decls[v['decl']]['kind'] == 'local':
+                    defs.setdefault(v['decl'], []).append(f.show(v['init']))
+        elif e['k'] == 'binop' and e['op'] == '=':
+            l = f.x(f.skip(e['l']))
+            if l is not None and l['k'] == 'ref' and f.decls[l['decl']]['kind'] == 'local':
+                defs.setdefault(l['decl'], []).append(f.show(e['r']))
+        elif e['k'] == 'binop' and e['op'].endswith('=') and e['op'] not in ('==', '!=', '<=', '>='):
+            l = f.x(f.skip(e['l']))
+            if l is not None and l['k'] == 'ref':
+                defs.setdefault(l['decl'], []).append('<compound>')
+    return set(f.decls[d]['name'] for d, shows in defs.items() if shows and all(re.match(rx, s or '') for s in shows))
+
+
+def canon(roles):
+    """roles: {canonical name: actual local/param name}.  Returns st -> set of facts in which every actual name is spelled
+    canonically, so that a rule can speak about 'the local that holds the result of add_interest' as `ret` whatever the
+    source calls it.  Names are replaced only as whole identifiers that are not member names (not after . or ->)."""
+    items = [(c, a) for c, a in roles.items() if a and a != c]
+    if not items:
+        ident = lambda st: st
+        ident.s = lambda x: x
+        return ident
+    stage1 = [(re.compile(r'(?<![\w.>])%s(?!\w)' % re.escape(a)), '\x00%d\x00' % n) for n, (c, a) in enumerate(items)]
+    stage2 = [('\x00%d\x00' % n, c) for n, (c, a) in enumerate(items)]
+
+    def one_s(k):
+        k = k or ''
+        for p, ph in stage1:
+            k = p.sub(ph, k)
+        for ph, c in stage2:
+            k = k.replace(ph, c)
+        return k
+
+    def f(st):
+        return set(one_s(k) for k in st)
+    f.s = one_s
+    return f
+
+
+def local_of_type(f, rx, what='local'):
+    n = sorted(set(d['name'] for d in f.decls if d['kind'] == 'local' and re.search(rx, d.get('type') or '') and not d['name'].startswith('__')))
+    if len(n) != 1:
+        raise AnalysisBroken('%s: expected exactly one %s of type /%s/, found %s' % (f.nname, what, rx, n))
+    return n[0]
+
+
+def one(names, what, f=None):
+    names = sorted(set(names))
+    if len(names) != 1:
+        raise AnalysisBroken('%sexpected exactly one %s, found %s' % ((f.nname + ': ') if f else '', what, names))
+    return names[0]
+
+
+def locals_assigned_from_call(f, rx):
+    """names of locals initialised by, or assigned from, a call whose resolved callee matches rx."""
+    out = set()
+    def is_call(i):
+        e = f.x(f.skip(i))
+        return e is not None and e['k'] == 'call' and re.search(rx, strip_targs(e.get('fn') or ''))
+    for e in f.exprs:
+        if e['k'] == 'declstmt':
+            for v in e['vars']:
+                if v.get('init') is not None and v['init'] >= 0 and is_call(v['init']):
+                    out.add(f.decls[v['decl']]['name'])
+        elif e['k'] == 'binop' and e['op'] == '=':
+            l = f.x(f.skip(e['l']))
+            if l is not None and l['k'] == 'ref' and is_call(e['r']):
+                out.add(f.decls[l['decl']]['name'])
+    return out
